@@ -988,7 +988,7 @@ impl VersionSet {
                     level,
                     file.file_number(),
                     file.get_file_size(),
-                    file.largest_key().clone()..file.smallest_key().clone(),
+                    file.smallest_key().clone()..file.largest_key().clone(),
                 )
             }
         }
